@@ -80,6 +80,36 @@ def case(g, tier, ci):
         ops.append({"op": "bp.changeDur", "id": "b", "name": names[i], "dur": enc(n / SR), "all": False})
         segs[i] = (segs[i][0], n, None)
         ops += observe()
+    # the same on ONE element that is forged, edited through Element.changeDuration and forged again
+    # (forging must not have frozen the waituntil of the stored blueprint)
+    if r.random() < 0.5:
+        ops += [{"op": "el.new", "id": "es"}, {"op": "el.addBP", "id": "es", "ch": 1, "bp": "b"},
+                {"op": "el.getArrays", "id": "es", "time": True}, {"op": "el.points", "id": "es"}]
+        for _ in range(r.randint(1, 3)):
+            cands = [i for i, sg in enumerate(segs) if sg[1] is not None]
+            if not cands:
+                break
+            i = r.choice(cands)
+
+            def zero_pad2(n):
+                el = 0
+                for j, sg in enumerate(segs):
+                    if sg[1] is not None:
+                        el += n if j == i else sg[1]
+                    else:
+                        if el == sg[2]:
+                            return True
+                        el = max(el, sg[2])
+                return False
+            for _try in range(20):
+                n = r.randint(2, 12) if r.random() < 0.6 else r.randint(12, 40)
+                if not zero_pad2(n):
+                    break
+            else:
+                continue
+            ops.append({"op": "el.changeDur", "id": "es", "ch": 1, "name": names[i], "dur": enc(n / SR), "all": False})
+            segs[i] = (segs[i][0], n, None)
+            ops += [{"op": "el.getArrays", "id": "es", "time": True}, {"op": "el.duration", "id": "es"}, {"op": "el.points", "id": "es"}]
     return ops
 
 
@@ -99,7 +129,7 @@ def post_check(ops, ri, rm):
         elif o["op"] == "bp.setSR":
             v = o["SR"]
             SR = Fraction(v["q"]) if isinstance(v, dict) else Fraction(v)
-        elif o["op"] == "bp.changeDur" and "ok" in r:
+        elif o["op"] in ("bp.changeDur", "el.changeDur") and "ok" in r:
             names = canonical_names([basename(s[0]) for s in segs])
             if o["name"] in names:
                 d = o["dur"]
